@@ -76,7 +76,15 @@ def check(run):
                 "letter in either case> edge*  (edge = the 29 white-space code points, U+200E, U+200F, '_'); remainders over letters "
                 "that exercise the case tables (ß ŉ ǆ ǅ İ ı σ ς Σ ſ µ K ﬁ ǰ U+0345, non-BMP, random code points of cased blocks); "
                 "prefix-less titles; 'wild' mixes of name fragments, colons and marks; 12 sites x default namespaces {0,6,10,14}; every "
-                "canonical full name produced by the real code is fed back under each default namespace.  distinct = distinct (site, "
+                "canonical full name produced by the real code is fed back under each default namespace.  Spaces are written as runs "
+                "of 1..9 ' '/'_'.  SEVERAL NsHandler OBJECTS OF DIFFERENT SITES LIVE IN ONE PROCESS: each of the 8 (16) harness "
+                "processes first creates and uses handlers of all 12 sites in a shard-dependent order (odd shard = reverse of the "
+                "even one, so every pair of sites is set up in both orders), later further handlers (constructor, deep copy, "
+                "get_nshandler_for_lang, pickle round trip); every shard sweeps EVERY (site, namespace name of ANY bundled site) and "
+                "'foreign' groups ask one name of 2-3 sites in a row.  The monitor judges every answer against the canonical form "
+                "computed from the site's OWN siteinfo JSON (vt/harness/c12_ref.py; None = outside the grammar, not judged), plus "
+                "shape, idempotence and invariance under folding runs / stripping the surroundings.  Hits are minimised on the real "
+                "code (smallest handler history in forked children, then greedy title shrinking).  distinct = distinct (site, "
                 "default namespace, title); non-trivial = the title has a decoration, a separator or a non-ASCII character")
     run.trusted = [
         "Coq 8.16.1 kernel (coqc); vm_compute for the finite table/site obligations",
@@ -135,9 +143,11 @@ def check(run):
         fp = "%s:%s:%d:%s" % (m["kind"], m["lang"], m["dns"], m["title"])
         if len(m["history"]) > 1:
             fp += ":after:" + ",".join(e[0] for e in m["history"])
-        if fp in seen_fp:
-            continue
+        anysite = (m["kind"], m["dns"], m["title"]) if len(m["history"]) <= 1 else fp
+        if fp in seen_fp or anysite in seen_fp:
+            continue              # the same minimal title fails on another site too: one report
         seen_fp.add(fp)
+        seen_fp.add(anysite)
         run.hit(fingerprint=fp, what="%s: site %s: %s%s" % (m["kind"], m["lang"], m["detail"], m["history_note"]),
                 replay={"lang": m["lang"], "dns": m["dns"], "title": m["title"], "expect": m.get("expect"),
                         "history": m["history"], "inst": m["inst"], "title_codepoints": [ord(c) for c in m["title"]],
